@@ -20,11 +20,12 @@ SPEC = dict(
     trusted_base=[
         "Lean 4.33.0 kernel; axioms per theorem listed under coverage.theorems (subset of propext, Classical.choice, Quot.sound)",
         "hand-written model lean/Qx/Model/C20Caps.lean (verStringCode = transcription of QXmppDiscoveryIq::verificationString incl. QMap, "
-        "QStringList::sort/removeDuplicates/join, QVariant::toString; verStringSpec = XEP-0115 5.1 on the wire view of QXmppDataForm::toXml), "
+        "octetLessThan sorting, removeDuplicates/join, QVariant::toString; verStringSpec = XEP-0115 5.1 on the wire view of QXmppDataForm::toXml), "
         "tied to src/base/QXmppDiscoveryIq.cpp, QXmppDataForm.cpp, src/client/QXmppDiscoveryManager.cpp, QXmppClient.cpp by the correspondence run",
         "shared Lean libraries Qx.Base.Utf8 (encoder, utf16Units), Qx.Crypto.Sha1, Qx.Crypto.Base64 (executable specs; every 'ver'/'spec' line "
         "compares them with Qt's QCryptographicHash/toBase64/toUtf8 on that input)",
-        "Qt: QString::operator< is code-unit order, QCryptographicHash, QDom parsing of the emitted XML (used by the independent oracle)",
+        "Qt: QByteArray::operator< is unsigned octet order, QString::operator< (QMap) is code-unit order, QCryptographicHash, QDom parsing of the "
+        "emitted XML (used by the independent oracle)",
         "the reading of XEP-0115 5.1: identities ordered by (category, type, lang, name) as tuples, i;octet collation, features as a set "
         "(5.4 item 4), a form without FORM_TYPE ignored (5.4 item 6)",
     ],
@@ -39,14 +40,15 @@ SPEC = dict(
     ],
     level_text="Theorems for ALL info sets: ver_perm_invariant (identities, features, fields, values in any order), ver_feature_set_invariant / "
                "ver_dup_feature_invariant, ver_string_injective_tokens / _on_canonical and the ver_changes_when_* corollaries under named "
-               "SHA-1 collision freedom, code_eq_spec_of_orders_agree / code_eq_spec_of_bmp (C++ string = XEP string whenever UTF-16 and octet "
-               "collation agree, in particular without astral characters; i;octet on UTF-8 proved to be code point order), "
-               "advertised_eq_answered / advertised_eq_xep_hash_of_answer; defects with witnesses: C20_defect_utf16_order, "
-               "C20_defect_boolean_field, C20_defect_valueless_field, C20_defect_reply_repeats_feature. Model tied to the real library by "
-               "exhaustive-permutation + random correspondence and an independent XEP implementation.",
+               "SHA-1 collision freedom, code_eq_spec (C++ string = XEP-0115 5.1 string for every info set with a form in the XEP's domain and "
+               "plain values, any characters; i;octet on UTF-8 proved to be code point order), advertised_eq_answered / "
+               "advertised_eq_xep_hash_of_answer, reply_features_nodup; defects with witnesses: C20_defect_boolean_field, "
+               "C20_defect_valueless_field. Model tied to the real library by exhaustive-permutation + random correspondence and an "
+               "independent XEP implementation.",
     level_note="Proved about the hand-written model; model-to-code tie is differential (all permutations of small sets, sampled beyond). SHA-1 "
-               "collision resistance is a named hypothesis. Four recorded deviations from XEP-0115 (collation for astral characters, boolean "
-               "fields, value-less fields, repeated features in the reply) are excluded from the agreement theorems by explicit hypotheses.",
+               "collision resistance is a named hypothesis. Two recorded deviations from XEP-0115 (boolean fields hashed as true/false, "
+               "value-less fields hashed as var<<) are excluded from code_eq_spec by the PlainForm hypothesis; the collation and repeated-"
+               "feature defects found earlier are fixed in /repo (0beac74, eee8133) and their witnesses stay in the corpus.",
     design_ref="5.20",
     technique="Lean 4 proofs (sorting/permutation, injective encoding, UTF-8 order) + model/implementation correspondence + independent XEP-0115 oracle",
 )
